@@ -565,6 +565,53 @@ pub fn run(tier: Tier) -> Report {
         rep.add_states(seqs.len() as u64);
         rep.extra("mixed_header_kind_sequences", json!(seqs.len()));
     }
+    // a stuffing codeword in front of every macroblock kind x chroma coded-block pattern (the bits that
+    // follow it differ by kind; in predicted pictures they start with the COD bit): two stuffing
+    // codewords, then the macroblock, as the first, a middle and the last macroblock of a predicted
+    // picture between two intra pictures, in both modes
+    {
+        let mut seqs: Vec<(Mode, Vec<Letter>)> = vec![];
+        for mode in [Mode::Sorenson, Mode::StdCustom] {
+            for kind in [Kind::Inter, Kind::InterQ, Kind::Inter4V, Kind::Intra, Kind::IntraQ] {
+                for cbpc in 0..4usize {
+                    for place in 0..3usize {
+                        let mk = |ptype: u8, tr: u8, stuffed: bool| -> Letter {
+                            let hd = hdr(mode, 48, 16, ptype, tr, (tr % 4) as usize, 0);
+                            let v1 = hd.v1();
+                            let mut mbs = body(&hd, 1, tr as usize);
+                            if stuffed {
+                                let mut blocks: [Blk; 6] = Default::default();
+                                if kind.is_intra() {
+                                    blocks = std::array::from_fn(|b| Blk::dc(40 + 20 * b as u8));
+                                }
+                                if cbpc & 2 != 0 {
+                                    blocks[4].ev = vec![ev_auto(true, 2, 3, v1)];
+                                }
+                                if cbpc & 1 != 0 {
+                                    blocks[5].ev = vec![ev_auto(true, 0, -2, v1)];
+                                }
+                                blocks[1].ev = vec![ev_auto(true, 1, 2, v1)];
+                                let nv = if matches!(kind, Kind::Inter4V) { 4 } else if kind.is_intra() { 0 } else { 1 };
+                                let dq = if matches!(kind, Kind::InterQ | Kind::IntraQ) { 1 } else { 0 };
+                                mbs[place] = Mb::Coded { kind, dquant: dq, mvd: (0..nv).map(|k| (k as i8 - 1, 1)).collect(), blocks };
+                                mbs.insert(place, Mb::Stuffing);
+                                mbs.insert(place, Mb::Stuffing);
+                            }
+                            let pic = Pic { mbs, hdr: hd };
+                            let bw = encode(&pic);
+                            let pad = (8 - bw.nbits % 8) % 8;
+                            Letter { name: format!("{}48x16{} pad{}", ["I", "P", "D"][ptype as usize], if stuffed { format!(" with two stuffing codewords before a {kind:?} macroblock (CBPC {cbpc:02b}) at position {place}") } else { String::new() }, pad), bytes: bw.bytes, pad, pic }
+                        };
+                        seqs.push((mode, vec![mk(0, 1, false), mk(1, 2, true), mk(0, 3, false)]));
+                    }
+                }
+            }
+        }
+        let calls: u64 = seqs.par_iter().map(|(mode, sq)| run_seq(&rep, *mode, None, &sq.iter().collect::<Vec<_>>())).sum();
+        rep.add_transitions(calls);
+        rep.add_states(seqs.len() as u64);
+        rep.extra("stuffing_before_every_macroblock_kind_sequences", json!(seqs.len()));
+    }
     // scale: one-row and one-column pictures of every lattice dimension (powers of two and their
     // neighbours, 3*2^k, primes, the largest values a 16-bit size field can carry), I, P, I in one reader
     {
@@ -594,7 +641,7 @@ pub fn run(tier: Tier) -> Report {
         rep.violation("C15/machinery-padding-coverage", format!("picture alphabet does not realise every padding length 0..7: {pads:?}"), json!({"kind": "machinery"}));
     }
     rep.set_rule(&format!(
-        "all sequences of 1..={maxlen} pictures (thorough: also of four pictures over every second letter) from an alphabet of type {{I,P,D}} x 8 PEI counts (every padding length 0..7) x bodies (last macroblock coded with AC data / not coded / with MCBPC stuffing codewords) per size, from a fresh decoder and after an I picture, in Sorenson and standard mode: decoder A reads the concatenation from one reader, decoder B gets one reader per picture; A, B and the reference decoder must agree after every call and A's reader must end within 8 bits of the end; plus pictures ending in each kind of final syntax element (every TCOEF form incl. each escape width, INTRADC, COD, each MVD shape, after DQUANT, position 63) at every padding length 0..7, alone / before / after another picture; standard-mode pictures that stop early before the next start code (whenever their own reader accepts them the shared reader must too, with the same picture, and the next picture decodes); 80-macroblock pictures ending in every number of not-coded macroblocks, followed by another picture; standard-mode sequences mixing PLUSPTYPE pictures (with and without unrestricted vectors) and plain-PTYPE pictures at every padding length; I, P, I sequences of one-row and one-column pictures for every dimension of the lattice (powers of two and neighbours, 3*2^k, primes, 65520, 65521, 65534, 65535); non-trivial = sequences of two or more pictures"
+        "all sequences of 1..={maxlen} pictures (thorough: also of four pictures over every second letter) from an alphabet of type {{I,P,D}} x 8 PEI counts (every padding length 0..7) x bodies (last macroblock coded with AC data / not coded / with MCBPC stuffing codewords) per size, from a fresh decoder and after an I picture, in Sorenson and standard mode: decoder A reads the concatenation from one reader, decoder B gets one reader per picture; A, B and the reference decoder must agree after every call and A's reader must end within 8 bits of the end; plus pictures ending in each kind of final syntax element (every TCOEF form incl. each escape width, INTRADC, COD, each MVD shape, after DQUANT, position 63) at every padding length 0..7, alone / before / after another picture; standard-mode pictures that stop early before the next start code (whenever their own reader accepts them the shared reader must too, with the same picture, and the next picture decodes); 80-macroblock pictures ending in every number of not-coded macroblocks, followed by another picture; standard-mode sequences mixing PLUSPTYPE pictures (with and without unrestricted vectors) and plain-PTYPE pictures at every padding length; stuffing codewords in front of every macroblock kind x chroma pattern x position of a predicted picture between two intra pictures; I, P, I sequences of one-row and one-column pictures for every dimension of the lattice (powers of two and neighbours, 3*2^k, primes, 65520, 65521, 65534, 65535); non-trivial = sequences of two or more pictures"
     ));
     rep.assume("pictures of one sequence share a size (prediction across sizes is outside the valid-stream premise)");
     rep
